@@ -3,6 +3,7 @@ import YncaVerif.Model.Conv
 import YncaVerif.Model.Subunit
 import YncaVerif.Model.Framing
 import YncaVerif.Model.Accept
+import YncaVerif.Model.ConnCheck
 import YncaVerif.Model.Server
 import YncaVerif.Model.Dialogue
 import YncaVerif.Gen.ServerTables
@@ -87,6 +88,9 @@ structure DState where
   /-- L5 run check: the device's answers (command text -> lines) and the dialogue state; `none` once a label was not enabled -/
   answers : List (String × List String) := []
   dlg : Option L5.D := some {}
+  /-- L5c run check: time-out parameter and state of the connection_check model; `none` once a label was not enabled -/
+  ccT : Nat := 1500000
+  cc : Option CC.St := some {}
 
 def noExotic : Exotic := fun _ _ => none
 
@@ -162,6 +166,34 @@ def volArithPlain : Srv.VolArith := fun stored halves =>
 def stepState (mode : String) (d : DState) (line : String) : DState × String :=
   let toks := (line.splitOn " ").filter (· ≠ "")
   match mode, toks with
+  | "conncheck", ["reset", t] => ({ d with cc := some {}, ccT := t.toNat?.getD 1500000 }, "ok")
+  | "conncheck", ["outcome"] =>
+    match d.cc with
+    | none => (d, "dead")
+    | some st =>
+      (d, match st.outcome with
+          | none => "none"
+          | some .error => "error"
+          | some (.ok n zs) => "ok " ++ Hex.hexOfStr n ++ "".intercalate (zs.map (fun z => " " ++ Hex.hexOfStr z)))
+  | "conncheck", op :: args =>
+    match d.cc with
+    | none => (d, "dead")
+    | some st =>
+      let lab : Option CC.Label :=
+        match op, args with
+        | "probe", [] => some .probe
+        | "line", [l] => (Hex.strOfHex l).map CC.Label.line
+        | "wait", [] => some .wait
+        | "wake", [] => some .wake
+        | "timeout", [] => some .timeout
+        | "tick", [n] => n.toNat?.map CC.Label.tick
+        | _, _ => none
+      match lab with
+      | none => (d, "bad-op")
+      | some lab =>
+        match CC.step d.ccT st lab with
+        | some st' => ({ d with cc := some st' }, "ok")
+        | none => ({ d with cc := none }, "DISABLED " ++ op)
   | "dialogue", "answer" :: cmd :: lines =>
     match Hex.strOfHex cmd, lines.mapM Hex.strOfHex with
     | some c, some ls => ({ d with answers := (c, ls) :: d.answers.filter (·.1 != c) }, "ok")
